@@ -20,19 +20,30 @@ import stixgen
 import tr_tables
 
 MANIFEST = {
-    "text": "Kernel-evaluated table theorem spec_refines (every value rule / required set / co-constraint of the class tables "
-            "regenerated from /repo is no stricter than the frozen specification's, slot by slot; failures are named and "
-            "turned into boundary inputs) over the same interpreter model as C02; per-kind completeness of clean "
-            "(clean_complete_partial[_wide]) and the object-level theorem spec_complete_partial for arbitrary tables: a "
-            "spec-valid object is accepted by the strict constructor, every given property stored with the same value "
-            "(timestamps as instants), anything else stored is a defaulted property; coverage predicates class_complete / "
-            "input_complete (100 of 123 generated classes, kernel-computed lib_complete in the evidence; not covered: nested "
-            "objects / extensions / granular markings in the input, positional / indicator / marking-definition __init__ forms).",
-    "design_ref": "DESIGN.md 6/C03, Appendix A.7",
-    "note": "Trusted: Coq kernel + vm_compute, tr_tables, frozen spec tables /verif/spec, Spec/StixValid.v (used to select the "
-            "spec-valid generated objects), the preservation comparison in this file. Partial theorem (explicit coverage "
-            "predicates); the oracle + correspondence carry the uncovered part (bundles, containers, nested objects).",
-    "technique": "Coq: kernel-evaluated refinement of generated tables + shared interpreter model; oracle on real parse/serialize",
+    "text": "PROVED (Coq, closed under the global context): (1) spec_refines_lib_modulo_failures -- the decidable table "
+            "condition 'every value rule / required set / co-constraint of the class tables regenerated from /repo is no "
+            "stricter than the frozen specification's', kernel-evaluated on every run, failures named slot by slot; (2) "
+            "clean_complete_partial / clean_complete_partial_wide -- for arbitrary tables and every JSON value: a value the "
+            "specification's rule accepts is let through by Property.clean in strict mode without custom flag and serializes "
+            "back to the same value (timestamps as instants, floats by value), for the kinds named by kind_complete / "
+            "kind_complete2 (string-like, fixed, integer, boolean, enumeration, hexadecimal, dictionary, identifier, reference, "
+            "selector, timestamp, float, lists of those) and representable values (jin_ok: at most six fraction digits, "
+            "|integer given for a float| < 10^16); (3) spec_complete_partial -- for arbitrary tables with spec_refines sp w: "
+            "the members of a spec-valid object (any validator fuel, distinct keys) are accepted by the strict constructor, "
+            "every given property is stored with the same value, anything else stored is a defaulted property; coverage "
+            "predicates class_complete (100 of 123 generated classes; kernel-computed lib_complete in the evidence; outside: "
+            "Relationship / Sighting / StatementMarking (positional __init__), Indicator, MarkingDefinition, 2.0 observables "
+            "with object references, 2.1 ExternalReference, SocketExt, Process) and input_complete (no nested object, "
+            "`extensions` or `granular_markings` member given). CORRESPONDENCE / ORACLE ONLY (not proved): parse dispatch, "
+            "bundles and observed-data containers, nested objects, granular markings, the uncovered classes.",
+    "design_ref": "DESIGN.md 6/C03, Appendix A.7; design_notes/C02-C03.md",
+    "note": "Trusted: Coq kernel + vm_compute, tr_tables, the frozen specification tables /verif/spec and Spec/StixValid.v "
+            "(which also selects the spec-valid generated candidates), the preservation comparison of this file (JSON "
+            "equality; timestamps as exact rational instants; additions only default-valued optionals), the Python check "
+            "that 2.0 object references are well typed. Oracle: ~800 presentations per quick run (alone / bundle / "
+            "observed-data container / two-call sequences in one process).",
+    "technique": "Coq proof over the shared interpreter model + kernel-evaluated table refinement; oracle on the real "
+                 "parse/serialize round trip of generated spec-valid objects; model correspondence on the same calls",
 }
 
 U = "8d1c5bdf-5a0e-4b8e-9a3c-1f2e3d4c5b6a"
